@@ -1,8 +1,10 @@
 """C19 — truncated input is PrematureEndOfInput: EOF-sentinel discipline of the character reader."""
+CANON = True
+
 import ast
 
 from .. import pyq, readerq
-from ..pysrc import dotted, norm
+from ..pysrc import dotted, norm, flat
 from ..readerq import HR, RD
 from .c40 import check_cont
 
@@ -164,7 +166,7 @@ def check(ctx, src):
     check_cont(ctx, src)
     # --- source reset
     m, ss = rq.methods["_set_source"]
-    t = " ".join(ast.unparse(ss).split())
+    t = flat(ss)
     for piece in ("self._peek_chars = deque()", "self._saved_chars = []", "self._pos = (1, 0)", "self._eof_tracker = self._pos", "self._stream = stream"):
         ctx.check(piece in t, "SRC-RESET", f"{RD}|Reader._set_source|{piece}", f"_set_source no longer executes `{piece}` for a new stream: look-ahead left by an aborted read leaks into the next source read with the same reader",
                   RD, ss.lineno, witness="REPL: after `(setv xs #` fails, the next truncated input reads as complete (or a valid one fails)", detail="reset per source")
